@@ -203,7 +203,8 @@ Msg(s, p0, cfg) ==
               dupCtype == Len(SelectSeq(good, LAMBDA f : NameIs(f, CTYPE))) > 1
               teOddList == Len(tes) >= 1 /\ (Len(tes) > 1 \/ \E i \in 1..Len(codings) : codings[i] = <<>>)
               keep10 == rl.v10 /\ conn = KEEPALIVE
-              baseClose == (rl.v11 /\ conn = CLOSE) \/ (~rl.v11 /\ ~keep10)
+              (* a request line without / with another version leaves persistence to the server *)
+              baseClose == (rl.v11 /\ conn = CLOSE) \/ (rl.v10 /\ ~keep10)
               mk(body, next, close, alsoRefuse, codes) ==
                  [inc |-> FALSE, deliverOK |-> ~dupHost, refuseOK |-> alsoRefuse \/ (e + 4 - p0) >= cfg.maxh \/ dupHost \/ dupCtype \/ teEmptyElems \/ ctlField \/ folded \/ rl.lowerMethod \/ rl.obsTarget \/ (~rl.v11 /\ ~rl.v10),
                   codes |-> codes \cup {400} \cup (IF teEmptyElems THEN {501} ELSE {}) \cup (IF (e + 4 - p0) >= cfg.maxh THEN {431} ELSE {}),
